@@ -1431,3 +1431,25 @@ func deepEqualVals(a, b Val) (eq bool, ok bool) {
 	}
 	return false, false
 }
+
+// EvalExpr evaluates one expression of pkg with the given local variables.
+func (in *Interp) EvalExpr(pkg *packages.Package, x ast.Expr, vars map[string]Val) (v Val, err error) {
+	defer func() {
+		if r := recover(); r != nil {
+			if fe, ok := r.(errFragment); ok {
+				err = fe
+				return
+			}
+			panic(r)
+		}
+	}()
+	in.depth, in.steps = 0, 0
+	if in.MaxDepth == 0 {
+		in.MaxDepth = 6
+	}
+	f := &frame{in: in, pkg: pkg, env: newEnv(nil), name: "expr " + types.ExprString(x)}
+	for k, val := range vars {
+		f.env.vars[k] = val
+	}
+	return f.expr(x, f.env), nil
+}
